@@ -3,7 +3,7 @@
 From Coq Require Import List ZArith NArith Bool.
 From Coq Require Import Floats.SpecFloat.
 From RRSS Require Import Base.Outcome Base.Chars Base.F64 Base.F64Text Exec.Val Exec.Ops Front.Ast Exec.Env Exec.Interp.
-From RRSS Require Import Proofs.StringLaws Proofs.RoundLaws Proofs.InterpInv Proofs.InterpLaws.
+From RRSS Require Import Proofs.StringLaws Proofs.RoundLaws Proofs.InterpInv Proofs.InterpLaws Proofs.InterpPure.
 Import ListNotations.
 
 (** cut then join with the same delimiter (or none) restores the string: all strings, all delimiters *)
@@ -129,4 +129,33 @@ Example C07_example :
   v_round_nearest (VNum (fdiv (f_of_Z (-5)) (f_of_Z 2))) = Ok (VNum (f_of_Z (-3))).
 Proof. vm_compute. repeat split; reflexivity. Qed.
 
+(** "only their target": evaluating a call-free operand changes no variable, scope, channel or budget
+    (only which variable `it` names), and `cut/join/cast X into Y` leaves X exactly as it was *)
+Theorem C07_reading_changes_no_variable :
+  forall prof f p e v e', pure_primary p = true -> produce_primary prof f p e = XOk v e' ->
+  scopes e' = scopes e /\ chan e' = chan e /\ steps e' = steps e /\ depth e' = depth e.
+Proof. exact pure_primary_frame. Qed.
+
+Theorem C07_into_keeps_operand :
+  forall prof f op x rx y ry param xs e xs' e',
+  other x y = true -> match param with Some px => pure_expr px | None => true end = true ->
+  exec_stmt prof f (SMutation op (PIdent (IVar x) rx) (Some (LIdent (IVar y) ry)) param) xs e = XOk xs' e' ->
+  find_var x (scopes e') = find_var x (scopes e).
+Proof. exact mutation_into_keeps_operand. Qed.
+
+(** any call-free mutation / rounding statement leaves every variable it does not target as it was *)
+Theorem C07_only_the_target_changes :
+  forall prof f s xs e xs' e' n,
+  frame_ok n s = true -> exec_stmt prof f s xs e = XOk xs' e' -> find_var n (scopes e') = find_var n (scopes e).
+Proof. exact assignment_frame. Qed.
+
+Example C07_frame_example :
+  let x := Simple (lit "x") in let y := Simple (lit "y") in let z := Simple (lit "z") in
+  frame_ok z (SMutation MCut (PIdent (IVar x) (mkRange (mkLoc 1 0) (mkLoc 1 1))) (Some (LIdent (IVar y) (mkRange (mkLoc 1 0) (mkLoc 1 1)))) None) = true /\
+  frame_ok x (SMutation MCut (PIdent (IVar x) (mkRange (mkLoc 1 0) (mkLoc 1 1))) (Some (LIdent (IVar y) (mkRange (mkLoc 1 0) (mkLoc 1 1)))) None) = true /\
+  frame_ok y (SMutation MCut (PIdent (IVar x) (mkRange (mkLoc 1 0) (mkLoc 1 1))) (Some (LIdent (IVar y) (mkRange (mkLoc 1 0) (mkLoc 1 1)))) None) = false /\
+  frame_ok x (SRounding RUp (EPrimary (PSubscript (PIdent (IVar y) (mkRange (mkLoc 1 0) (mkLoc 1 1))) (PIdent (IVar z) (mkRange (mkLoc 1 0) (mkLoc 1 1)))))) = true.
+Proof. vm_compute. repeat split; reflexivity. Qed.
+
 Print Assumptions C07_join_split_roundtrip.
+Print Assumptions C07_only_the_target_changes.
